@@ -6,6 +6,7 @@ import (
 	"path"
 	"path/filepath"
 	"strings"
+	"syscall"
 	"time"
 
 	"pgregory.net/rapid"
@@ -230,4 +231,12 @@ func genSmallProg(t *rapid.T) *pg.Prog {
 	// carried-over declarations with printf verbs and the % operator (the code is data, never a format string)
 	p.SetupFuncs += "// pctLit: 100% of the verbs %d %s %v must survive.\nconst pctLit = \"100% done %d %s %!\"\n\nfunc pctMod(a, b int) int { return a % b }\n"
 	return p
+}
+
+
+// sameDevice reports whether two files live on the same file system.
+func sameDevice(a, b os.FileInfo) bool {
+	sa, ok1 := a.Sys().(*syscall.Stat_t)
+	sb, ok2 := b.Sys().(*syscall.Stat_t)
+	return ok1 && ok2 && sa.Dev == sb.Dev
 }
